@@ -26,12 +26,13 @@ PROPS = {
                       "the correspondence harness. gzip/snappy are premises. Modelled, not verified: protocol/message.go, util/compress.go.",
     },
     "C02": {
+        "generated": ["godecode2v"],
         "rule": "per base frame: every truncation point (fresh and reused object), every length field (total, path, method, metadata, "
                 "each metadata key/value, payload) replaced by each of {0,1,len-1,len,len+1,2^16,2^31-1,2^31,2^32-1} (fresh and reused), "
                 "MaxMessageLength in {1,total-1,total,total+1}; random sequences of 1-4 decodes on one object with/without Reset mixing valid "
                 "frames, bit flips, garbage, trailing bytes, body slack; multi-frame streams through a chunking reader; distinct = distinct "
                 "model-input line; non-trivial = more than 16 stream bytes or more than one decode on the object",
-        "theorems": ["C02_success_consumes_one_frame", "C02_fields_are_the_delimited_ranges", "C02_decoder_refines_spec",
+        "theorems": ["C02_section_is_the_source_s", "C02_decode_metadata_is_the_source_s", "C02_success_consumes_one_frame", "C02_fields_are_the_delimited_ranges", "C02_decoder_refines_spec",
                      "C02_independent_of_object_history", "C02_never_panics", "C02_too_long_rejected_before_body",
                      "C02_concatenated_frames_resynchronise"],
         "assumptions": ["io.ReadFull over bufio.Reader delivers exactly the next n bytes of the concatenated stream or EOF/ErrUnexpectedEOF "
